@@ -273,6 +273,44 @@ pub fn run(ctx: &mut Ctx) {
     });
     ctx.require_classes("positional", &["negative-shr-floor-correction"]);
 
+    // astronomically large positions / right-shift counts (no allocation involved): the result is
+    // all sign bits
+    let huge: Vec<usize> = vec![1 << 32, (1 << 32) + 1, (1 << 32) + 64, (1 << 32) + 127, 1 << 40, (1usize << 63) - 1, 1 << 63, usize::MAX - 1, usize::MAX];
+    let nh = huge.len() as u64;
+    let hr = &huge;
+    ctx.sweep("huge.positions", nv * nh, |i, rec| {
+        let (a, k) = (&vr[(i / nh) as usize], hr[(i % nh) as usize]);
+        let ia = ref_to_i(a);
+        let class = format!("{}{},huge-count", if neg(a) { "-" } else { "+" }, size_class(word_len(a.magnitude())));
+        let class = class.as_str();
+        let c = |op: &'static str| move || format!("{} {} {}", hex(a), op, k);
+        let fill = if neg(a) { -BigInt::one() } else { BigInt::zero() };
+        expect_i(rec, P, "IBig::shr", class, guard(|| &ia >> k), &fill, c(">>"));
+        expect_i(rec, P, "IBig::shr(val)", class, guard(|| ia.clone() >> k), &fill, c(">>"));
+        expect_i(rec, P, "IBig::shr_assign", class, guard(|| { let mut t = ia.clone(); t >>= k; t }), &fill, c(">>="));
+        expect_eq(rec, P, "IBig::bit", class, guard(|| ia.bit(k)), &neg(a), c("bit"));
+        if !neg(a) {
+            let ua = ref_to_u(a.magnitude());
+            expect_u(rec, P, "UBig::shr", class, guard(|| &ua >> k), &BigUint::zero(), c(">>"));
+            expect_u(rec, P, "UBig::shr(val)", class, guard(|| ua.clone() >> k), &BigUint::zero(), c(">>"));
+            expect_u(rec, P, "UBig::shr_assign", class, guard(|| { let mut t = ua.clone(); t >>= k; t }), &BigUint::zero(), c(">>="));
+            expect_eq(rec, P, "UBig::bit", class, guard(|| ua.bit(k)), &false, c("bit"));
+            expect_u(rec, P, "UBig::clear_bit", class, guard(|| { let mut t = ua.clone(); t.clear_bit(k); t }), a.magnitude(), c("clear_bit"));
+            expect_u(rec, P, "UBig::clear_high_bits", class, guard(|| { let mut t = ua.clone(); t.clear_high_bits(k); t }), a.magnitude(), c("clear_high_bits"));
+            rec.step();
+            match guard(|| ua.clone().split_bits(k)) {
+                Ok((lo, hi)) => {
+                    if u_to_ref(&lo) != *a.magnitude() || !hi.is_zero() {
+                        rec.fail(format!("{}|UBig::split_bits|wrong-value|{}", P, class), c("split_bits")(), format!("lo={} hi={}", hexu(&u_to_ref(&lo)), hexu(&u_to_ref(&hi))), "lo = self, hi = 0");
+                    }
+                }
+                Err(p) => rec.fail(format!("{}|UBig::split_bits|panic|{}", P, class), c("split_bits")(), p, "lo = self, hi = 0"),
+            }
+        }
+        rec.nontrivial();
+        rec.sample(|| format!("{} at position / right shift {}", hex(a), k));
+    });
+
     ctx.sweep("ones", 301, |i, rec| {
         let n = i as usize;
         let want = (BigUint::one() << n) - 1u32;
